@@ -15,6 +15,12 @@ X_CLASSES = ['index', 'epoch', 'offset', 'irregular']
 
 
 def nextafter(x, up=True, n=1):
+    """n representable numbers above / below x.  Beside 0 the neighbours are the denormals 5e-324 ...: the
+    difference quotient of two such ordinates underflows to 0 inside scipy's interpolant (the chord degenerates to a
+    step), which is a limit of binary64, not of spowtd; the claimed domain of C12 / C13 is ordinates that are 0 or
+    normal numbers, so the neighbours of 0 are taken at the scale 1e-300."""
+    if x == 0.0:
+        return (1 if up else -1) * n * 1e-300
     for _ in range(n):
         x = math.nextafter(x, math.inf if up else -math.inf)
     return x
